@@ -17,3 +17,6 @@ Definition DoFullUnicodeCaseFolding := case_fold case_foldings.
 Definition ReplaceSpaces := replace_spaces space_table.
 Definition ToLinkReference := to_link_reference space_table spaces case_foldings.
 Definition ToRune := to_rune.
+
+Require Import GM.model.Ids.
+Definition IdsGenerate := generate utf8len_table space_table spaces.
